@@ -38,6 +38,18 @@ def check_alternation(run, A):
         fn = L.fn
         short = fn.qual.split('::')[1]
         n += 1
+        # a first (or last) alternation written out in front of / behind the loop (`model = m_step(init); for _ in range(iterations - 1): ...`): n alternations may still be made,
+        # but the shape the rules below read - everything inside one loop over range(iterations) - is not there: undecided, not a deviation
+        g0 = A.graphs.get(fn)
+        in_loop = {id(e_) for e_ in L.loop.body_events}
+        def step_name(e_):
+            nm = call_parts(e_.term)[0] if (e_.kind == 'call' and e_.term is not None and e_.term.op == 'call') else None
+            return (nm or '').split('.')[-1].split(':')[-1]
+        peeled = [e_ for e_ in g0.events if id(e_) not in in_loop and step_name(e_) in ('_m_step', '_e_step', '_predict') and step_name(e_) == step_name(L.m_event)]
+        if peeled and L.range_ok is False:
+            run.unresolved('R-LOOP', f'{short}: n iterations are n alternations of E-step and M-step', fn.loc(peeled[0].node),
+                           f'`{norm_stmt(peeled[0].node)[:80]}`: an M-step stands outside the EM loop (a peeled iteration); the alternation is not in the one-loop form the rule reads')
+            continue
         if L.range_ok is None:
             run.unresolved('R-LOOP', f'{short}: iterates over range(iterations)', fn.loc(L.loop.node), 'the iterable of the EM loop is not a range whose length can be folded')
         else:
